@@ -385,7 +385,13 @@ func (s *clusterState) Digest() digest {
 			ID:      state.ID,
 			Addr:    state.Addr,
 			Version: state.Version,
-			Left:    state.Left,
+			// Nodes receiving the digest ignore unknown nodes that are flagged
+			// as left so they aren't re-discovered. Unreachable nodes are
+			// flagged too, otherwise a crashed node that a peer has already
+			// removed (once it expired) is re-discovered from peers that have
+			// not yet removed it, as each node expires it at a different time,
+			// so the node is never forgotten.
+			Left: state.Left || state.Unreachable,
 		})
 	}
 	return digest
